@@ -74,6 +74,7 @@ fn rand_cfg(rng: &mut Rng) -> Cfg {
         lat: *rng.pick(&[Lat::None, Lat::None, Lat::Fixed(300), Lat::Range(50, 900)]),
         page_cache: rng.chance(0.3),
         fs_seed: rng.next_u64(),
+        capacity: None,
     }
 }
 
